@@ -104,10 +104,7 @@ def nontrivial_counters(res, rb, qs, weakly):
     """Reference-side non-vacuity counters for one base."""
     part = rb.fin if weakly else rb.part
     feas = rb.feas if weakly else rb.full
-    res.counters["bases"] += 1
-    res.counters["bases_cls_%s" % rb.cls] += 1
-    if part is not None:
-        res.counters["bases_depth_%d" % len(part)] += 1
+    res.counters["tasks_base_x_query_slice"] += 1
     for qc, vf in qs:
         t = ref.trivial(vf, feas)
         if t is not None:
@@ -132,6 +129,12 @@ def compare_with_reference(prop, task, res=None, cfgs=None, count=True):
     weakly = task["weakly"]
     if count:
         nontrivial_counters(res, rb, qs, weakly)
+        if not task.get("qslice") or task["qslice"][0] == 0:      # count each base once, not once per query slice
+            part = rb.fin if weakly else rb.part
+            res.counters["bases"] += 1
+            res.counters["bases_cls_%s" % rb.cls] += 1
+            if part is not None:
+                res.counters["bases_depth_%d" % len(part)] += 1
     dig = []
     for cfg, ans in answers.items():
         system = SYS_OF.get(cfg, cfg.split("@")[0])
